@@ -33,6 +33,20 @@ Round 4 - the REPETITION BODY (`analyse_body`): the methods reachable from `requ
 `Props/C17.lean` (`repetition_message_tied`) proves by `decide` that these say "the message object handed over in a
 repetition is local to that repetition"; seeded change C17-m5 (one `self.new_denm` refilled by every repetition of
 every event) yields stores > 0, `new_denm` among the attributes read and code 2.
+
+Round 5:
+* `snapshotSite` - where the private copy of the request's (mutable) `event_position` is taken:
+    0 = in `request_denm_sending`, i.e. on the CALLER's thread, in a statement before the one that creates / starts the
+        event thread, and what is passed to the thread (`args=[<name>]`) is a name (re)bound in that method before
+        the thread is created (the snapshot, not the caller's object);
+    1 = not there, but somewhere in the methods the event thread runs (`trigger_denm_messages` and what it reaches):
+        between `Thread.start()` returning and that statement the caller's dictionary is still aliased;
+    2 = nowhere (position read by reference for the whole event, C17-F4).
+  "copy" = a call of `deepcopy` / `copy.deepcopy` whose argument mentions `.event_position`.
+* `bareLockCalls` - number of `<x>.acquire(..)` / `<x>.release(..)` calls in the whole class: a lock taken with a bare
+  `acquire()` stays held when the statements up to the `release()` raise - and the repetition loop deliberately
+  survives such an exception (C17-F3), so the next repetition of ANY event would block for ever.  Locks only via `with`.
+`Props/C17.lean`: `request_snapshot_tied` / `lock_discipline_tied` (`decide`).
 """
 from __future__ import annotations
 
@@ -250,6 +264,10 @@ def analyse_body():
     for name in reach:
         fn = fns[name]
         local = _locals_bound(fn)
+        # `with self.<lock>:` sections: the context expression is not a read of shared DATA (round 5: a lock taken
+        # with `with` is a harmless change; bare acquire()/release() calls are counted by `analyse_request`)
+        with_ctx = {id(it.context_expr) for w in ast.walk(fn) if isinstance(w, (ast.With, ast.AsyncWith)) for it in w.items
+                    if it.optional_vars is None}
         for n in ast.walk(fn):
             if isinstance(n, (ast.Global, ast.Nonlocal)):
                 stores += 1
@@ -261,10 +279,72 @@ def analyse_body():
                 r = _root(n.args[0]) if n.args else None
                 if r is None or r not in local:
                     stores += 1
-            if _is_self_attr_any(n) and n.attr not in fns:
+            if _is_self_attr_any(n) and n.attr not in fns and id(n) not in with_ctx:
                 attrs.add(n.attr)
         codes += _transmit_codes(fn, fns)
     return {"reach": reach, "stores": stores, "attrs": sorted(attrs), "transmit": codes}
+
+
+def _mentions_attr(node, attr):
+    return any(isinstance(n, ast.Attribute) and n.attr == attr for n in ast.walk(node))
+
+
+def _has_position_copy(node):
+    """a `deepcopy(..)` / `copy.deepcopy(..)` call under `node` whose arguments mention `.event_position`"""
+    for n in ast.walk(node):
+        if isinstance(n, ast.Call) and ((isinstance(n.func, ast.Name) and n.func.id == "deepcopy")
+                                        or (isinstance(n.func, ast.Attribute) and n.func.attr == "deepcopy")):
+            if any(_mentions_attr(a, "event_position") for a in list(n.args) + [k.value for k in n.keywords]):
+                return True
+    return False
+
+
+def _is_thread_ctor(n):
+    return isinstance(n, ast.Call) and ((isinstance(n.func, ast.Attribute) and n.func.attr == "Thread")
+                                        or (isinstance(n.func, ast.Name) and n.func.id == "Thread"))
+
+
+def analyse_request():
+    """round 5: where the snapshot of the request is taken, and bare acquire()/release() calls (see module docstring)"""
+    tree = ast.parse(gen_lean.src(FILE))
+    cls = next((n for n in tree.body if isinstance(n, ast.ClassDef) and n.name == CLASS), None)
+    if cls is None:
+        raise ValueError(f"class {CLASS} not found in {FILE}")
+    fns = {n.name: n for n in cls.body if isinstance(n, (ast.FunctionDef, ast.AsyncFunctionDef))}
+    if "request_denm_sending" not in fns or "trigger_denm_messages" not in fns:
+        raise ValueError(f"{CLASS}: request_denm_sending / trigger_denm_messages not found")
+    req = fns["request_denm_sending"]
+    params = {a.arg for a in req.args.args + req.args.kwonlyargs}
+    site, copied, bound = None, False, set()
+    for st in req.body:
+        ctor = next((n for n in ast.walk(st) if _is_thread_ctor(n)), None)
+        starts = any(isinstance(n, ast.Call) and isinstance(n.func, ast.Attribute) and n.func.attr == "start" for n in ast.walk(st))
+        if ctor is not None or starts:
+            if ctor is not None:
+                passed = []
+                for k in ctor.keywords:
+                    if k.arg in ("args", "kwargs"):
+                        passed += [n.id for n in ast.walk(k.value) if isinstance(n, ast.Name)]
+                for a in ctor.args[2:]:
+                    passed += [n.id for n in ast.walk(a) if isinstance(n, ast.Name)]
+                raw = [nm for nm in passed if nm in params and nm not in bound and nm != "self"]
+                site = 0 if (copied and not raw) else None
+            break
+        if _has_position_copy(st):
+            copied = True
+        bound |= {n.id for n in ast.walk(st) if isinstance(n, ast.Name) and isinstance(n.ctx, ast.Store)}
+    if site is None:
+        reach, todo = [], ["trigger_denm_messages"]
+        while todo:
+            name = todo.pop(0)
+            if name in reach:
+                continue
+            reach.append(name)
+            todo += [n.attr for n in ast.walk(fns[name]) if _is_self_attr_any(n) and n.attr in fns]
+        site = 1 if any(_has_position_copy(fns[name]) for name in reach) else 2
+    bare = sum(1 for n in ast.walk(cls) if isinstance(n, ast.Call) and isinstance(n.func, ast.Attribute)
+               and n.func.attr in ("acquire", "release"))
+    return {"snapshot_site": site, "bare_lock_calls": bare}
 
 
 def _is_self_attr_any(node):
@@ -295,6 +375,13 @@ def gen_denm():
     body += ("/-- argument of every `self.transmit_denm(..)`: 0 local bound in the same loop body to a fresh\n"
              f"    `{MSG_CLASS}()`, 1 such a local bound outside the loop, 2 rooted at `self`, 3 anything else -/\n")
     body += f"def transmitArgs : List Nat := {gen_lean.lean_nat_list(body_info['transmit'])}\n"
+    rq = analyse_request()
+    body += ("/-- where the private copy of the request's mutable `event_position` is taken: 0 = in `request_denm_sending`\n"
+             "    (the caller's thread) before the event thread is created and the thread is given the copy, 1 = only in the\n"
+             "    methods the event thread runs, 2 = nowhere -/\n")
+    body += f"def snapshotSite : Nat := {rq['snapshot_site']}\n"
+    body += "/-- `<x>.acquire(..)` / `<x>.release(..)` calls in the class (locks are to be taken with `with` only) -/\n"
+    body += f"def bareLockCalls : Nat := {rq['bare_lock_calls']}\n"
     body += "end Generated.Denm\n"
     gen_lean.write_if_changed("Denm.lean", body)
 
@@ -302,3 +389,4 @@ def gen_denm():
 if __name__ == "__main__":
     print(analyse())
     print(analyse_body())
+    print(analyse_request())
